@@ -28,14 +28,6 @@ TRUSTED = [
 
 PRIMS = ["string", "integer", "number", "boolean"]
 BASIC = ["object", "array", "string", "integer", "number", "boolean", "null"]
-MUT_SRC = VERIF / "build" / "mut" / "src"   # private mutated copy of /repo/src for mutation testing (VERIF_C02_MUT=1)
-
-
-def _activate_mutant_tree() -> None:
-    if os.environ.get("VERIF_C02_MUT") == "1" and MUT_SRC.is_dir():
-        sys.path.insert(0, str(MUT_SRC))
-        for m in [m for m in sys.modules if m == "pyopenapi_gen" or m.startswith("pyopenapi_gen.")]:
-            del sys.modules[m]
 
 
 # ---------------------------------------------------------------- documents
@@ -205,10 +197,8 @@ def run_impl(inp: dict) -> tuple[Any, Any]:
     """returns (observation, IRSpec.schemas or None)"""
     from pyopenapi_gen import load_ir_from_spec
     logging.disable(logging.CRITICAL)
-    lim = sys.getrecursionlimit()
     try:
         with _Env(inp.get("max_depth")):
-            sys.setrecursionlimit(max(lim, 20000))
             ir = load_ir_from_spec(doc(inp["schemas"]))
         return observe_ir(ir.schemas), ir.schemas
     except RuntimeError as e:
@@ -220,7 +210,6 @@ def run_impl(inp: dict) -> tuple[Any, Any]:
     except Exception as e:  # noqa: BLE001
         return f"ERR {type(e).__name__}: {str(e)[:100]}", None
     finally:
-        sys.setrecursionlimit(lim)
         logging.disable(logging.NOTSET)
 
 
@@ -426,7 +415,7 @@ def c_case(inp: dict, obs: Any) -> str:
 NAME_SETS = [["User", "UserGroup", "UserGroupItem"], ["Order", "OrderItem", "Pet"], ["Node", "Tree", "Pet"],
              ["PropertyBag", "Bag", "BagItem"], ["Children", "ChildrenItem", "Kid"]]
 NAMES = ["User", "UserGroup", "Order", "OrderItem", "Node", "NodeKid", "Tree", "Pet", "PropertyBag", "Children"]
-KEYS = ["group", "members", "item", "a", "b", "kid", "nxt", "user", "order", "children", "node_id"]
+KEYS = ["group", "members", "item", "alpha", "beta", "kid", "nxt", "user", "order", "children", "ident"]
 EDGE_KINDS = ["ref", "arr_ref", "inline", "arr_inline", "map", "oneof", "anyof", "allof"]
 
 
@@ -437,9 +426,9 @@ def edge_prop(kind: str, target: str) -> list:
     if kind == "arr_ref":
         return ["arr", r]
     if kind == "inline":
-        return ["obj", [["x", r], ["y", ["prim", "string"]]], ["x"]]
+        return ["obj", [["xx", r], ["yy", ["prim", "string"]]], ["xx"]]
     if kind == "arr_inline":
-        return ["arr", ["obj", [["x", r]], []]]
+        return ["arr", ["obj", [["xx", r]], []]]
     if kind == "map":
         return ["map", r]
     if kind == "oneof":
@@ -458,8 +447,8 @@ def graph_spec(names: list, edges: list, order: tuple) -> dict:
     """edges: (i, j, kind).  Schema i = object with one property per non-allOf edge, wrapped in allOf for parent edges."""
     schemas = {}
     for i, n in enumerate(names):
-        props, req, parents = [["id", ["prim", "integer"]]], ["id"], []
-        used = {"id"}
+        props, req, parents = [["ident", ["prim", "integer"]]], ["ident"], []
+        used = {"ident"}
         for (a, b, kind) in edges:
             if a != i:
                 continue
@@ -523,7 +512,7 @@ def gen_spec(rng, nmax=7, acyclic=False) -> dict:
         for i, nm in enumerate(names):
             later = names[i + 1:] or None
             if later is None:
-                out.append([nm, ["obj", [["id", ["prim", "integer"]]], ["id"]]])
+                out.append([nm, ["obj", [["ident", ["prim", "integer"]]], ["ident"]]])
             else:
                 out.append([nm, gen_node(rng, later, 0, True)])
         rng.shuffle(out)
@@ -547,8 +536,8 @@ def gen_malformed(rng) -> dict:
 
 
 def chain(n: int, max_depth: int | None = None) -> dict:
-    sch = [[f"S{i}", ["obj", [["nxt", ["ref", f"S{i + 1}"]], ["v", ["prim", "string"]]], ["v"]]] for i in range(n - 1)]
-    sch.append([f"S{n - 1}", ["obj", [["v", ["prim", "string"]]], ["v"]]])
+    sch = [[f"S{i}", ["obj", [["nxt", ["ref", f"S{i + 1}"]], ["vv", ["prim", "string"]]], ["vv"]]] for i in range(n - 1)]
+    sch.append([f"S{n - 1}", ["obj", [["vv", ["prim", "string"]]], ["vv"]]])
     d: dict = {"schemas": sch}
     if max_depth is not None:
         d["max_depth"] = max_depth
@@ -589,11 +578,10 @@ def build_inputs(chk: Check) -> list[dict]:
     return inputs
 
 
-FINDING_BITS = {1: "F02a", 2: "F02b", 3: "F02c", 4: "F02d", 5: "F02e"}
+FINDING_BITS = {1: "F02a", 2: "F02b", 3: "F02c", 4: "F02d", 5: "F02f"}
 
 
 def main(chk: Check, replay: dict | None = None) -> int:
-    _activate_mutant_tree()
     if replay is not None:
         r = run_one(replay["input"])
         print(json.dumps(r, indent=1, default=str))
